@@ -100,16 +100,43 @@ def case_st(draw):
     for k, v in BUNDLE_VARIANTS.items():
         variants[k] = v
     names = sorted(files)
-    r = type("R", (), {"files": files})()
+    # the history is built against a model of the client state so that every event is effective, and (half of the
+    # time) concentrates on a group of files that depend on each other
+    groups = [["ze_ext.f90", "ze_use.f90", "za_first.f90"], ["zs_par.f90", "zs_sub.f90"], ["zi_inc.f90", "zi_main.f90"], sorted(r.files),
+              sorted(r.files) + ["ze_ext.f90", "ze_use.f90"]]
+    focus = draw(st.sampled_from([None, None, None] + groups))
+    pool = (focus or names) + sorted(extra)
+    on_disk, is_open, deleted = set(names), set(), set()
     ops = []
     for _ in range(draw(st.integers(3, 14))):
-        kind = draw(st.sampled_from(["open", "open", "change", "change", "change", "save", "save", "close", "delete", "create", "disk", "query"]))
-        f = draw(st.sampled_from(names + (sorted(extra) if kind in ("open", "change", "save", "close", "delete") else [])))
+        app = {
+            "open": [f for f in pool if f in on_disk and f not in is_open],
+            "change": [f for f in pool if f in is_open],
+            "save": [f for f in pool if f in is_open],
+            "close": [f for f in pool if f in is_open],
+            "delete": [f for f in pool if f in on_disk],
+            "create": [f for f in pool if f not in on_disk],
+            "disk": [f for f in pool if f in on_disk],
+            "query": [names[0]],
+        }
+        weights = ["open", "open", "change", "change", "change", "save", "save", "close", "delete", "delete", "create", "create", "disk", "query", "query"]
+        kinds = [k for k in weights if app[k]]
+        kind = draw(st.sampled_from(kinds))
+        f = draw(st.sampled_from(app[kind]))
         v = draw(st.integers(0, 7))
         mode = draw(st.sampled_from(["full", "ranged"]))
-        if kind == "create":
-            f = draw(st.sampled_from(sorted(extra)))
         ops.append([kind, f, v, mode])
+        if kind == "open":
+            is_open.add(f)
+        elif kind == "close":
+            is_open.discard(f)
+        elif kind == "delete":
+            on_disk.discard(f)
+            is_open.discard(f)
+            deleted.add(f)
+        elif kind == "create":
+            on_disk.add(f)
+            is_open.add(f)
     return {"files": files, "variants": variants, "extra": extra, "ops": ops}
 
 
@@ -208,6 +235,9 @@ def execute(case, scratch):
                     del buf[n]
                     info["effective_ops"] += 1
             elif kind == "delete":
+                if n in disk and n not in buf:
+                    srv.did_open(P(n))
+                    buf[n] = disk[n]
                 if n in buf and n in disk:
                     os.unlink(P(n))
                     del disk[n]
